@@ -11,7 +11,7 @@ import numpy as np
 from harness import common, nnd_corr
 
 COQ_FILES = ["model/Base.v", "model/Heap.v", "model/Rng.v", "model/NND.v", "proofs/ListAux.v", "proofs/HeapProofs.v",
-             "proofs/HeapTopK.v", "proofs/HeapArrays.v", "proofs/NNDProofs.v", "proofs/C12Proofs.v"]
+             "proofs/HeapTopK.v", "proofs/HeapArrays.v", "proofs/NNDProofs.v", "proofs/C12Proofs.v", "proofs/Par.v", "proofs/C05Proofs.v", "proofs/C05Threads.v"]
 SENTINELS = {"pynndescent/utils.py": ["apply_graph_updates_low_memory", "apply_graph_updates_high_memory",
                                       "checked_flagged_heap_push", "new_build_candidates"],
              "pynndescent/pynndescent_.py": ["nn_descent", "nn_descent_internal_low_memory_parallel",
